@@ -25,7 +25,7 @@ pub fn gen(r: &mut Rng) -> Value {
         // focused history: ONE live collection of one kind, every operation of that kind over a tiny key / value pool,
         // so that each write is soon followed by every query of the same key / value (empty values included)
         let kind = r.below(3);
-        let vals = ["", "a", "x y", "false", "0"];
+        let vals = ["", "a", "x y", "false", "0", "é", "日本"];
         let mut ops = vec![match kind { 0 => json!({"op": "array", "slot": 0, "vals": [r.pick(&vals), r.pick(&vals)]}), 1 => json!({"op": "map", "slot": 0}), _ => json!({"op": "set_new", "slot": 0, "vals": [r.pick(&vals)]}) }];
         for _ in 0..(3 + r.below(9)) {
             let v = r.pick(&vals).to_string();
@@ -41,7 +41,7 @@ pub fn gen(r: &mut Rng) -> Value {
                     6 => json!({"op": "array_length", "slot": 0}),
                     7 => json!({"op": "array_contains", "slot": 0, "v": v}),
                     8 => json!({"op": "array_is_empty", "slot": 0}),
-                    9 => json!({"op": "array_join", "slot": 0, "v": ","}),
+                    9 => json!({"op": "array_join", "slot": 0, "v": r.pick(&[",", "é", "", "→ "])}),
                     _ => json!({"op": "array_clear", "slot": 0}),
                 },
                 1 => match r.below(10) {
@@ -72,7 +72,7 @@ pub fn gen(r: &mut Rng) -> Value {
         let k = r.pick(&["k1", "k2", "a"]).to_string();
         let i = r.below(4);
         let op = match r.below(33) {
-            26 => if r.chance(1, 3) { json!({"op": "array_concat", "slot": h, "other": r.below(4), "dst": r.below(4)}) } else if r.chance(1, 2) { json!({"op": "set_from_array", "slot": h, "dst": r.below(4)}) } else { json!({"op": "array_join", "slot": h, "v": r.pick(&[",", "", ", ", "-"])}) },
+            26 => if r.chance(1, 3) { json!({"op": "array_concat", "slot": h, "other": r.below(4), "dst": r.below(4)}) } else if r.chance(1, 2) { json!({"op": "set_from_array", "slot": h, "dst": r.below(4)}) } else { json!({"op": "array_join", "slot": h, "v": r.pick(&[",", "", ", ", "-", "é", "→"])}) },
             27 => json!({"op": "array_contains", "slot": h, "v": v}),
             28 => json!({"op": "array_is_empty", "slot": h}),
             29 => json!({"op": "map_contains_key", "slot": h, "k": k}),
